@@ -201,7 +201,7 @@ def h_bounds(fac):
 
 
 # ------------------------------------------------------------------ replay oracle: the property's own closed loop (noise-free)
-def closed_loop(seed=0, trials=3, elongated=None):
+def closed_loop(seed=0, trials=3, elongated=None, docov=True):
     """inject an isolated Gaussian with a real WCS, run the real blind finder with forced bkg/rms, compare"""
     import logging
     import random
@@ -250,7 +250,7 @@ def closed_loop(seed=0, trials=3, elongated=None):
             fn = os.path.join(d, 'inj%d.fits' % t)
             fits.PrimaryHDU(img.astype(real_np.float64), header=hdr).writeto(fn, overwrite=True)
             finder = sfm.SourceFinder(log=logging.getLogger('c01'))
-            srcs = finder.find_sources_in_image(fn, rms=rmsv, bkg=0.0, nonegative=False, cores=1, innerclip=clips[0], outerclip=clips[1])
+            srcs = finder.find_sources_in_image(fn, rms=rmsv, bkg=0.0, nonegative=False, cores=1, innerclip=clips[0], outerclip=clips[1], docov=docov)
             if len(srcs) != 1:
                 # independent look at the injected image: how many pixels are maxima of their 3x3 neighbourhood above the flood clip?
                 # (a sampled ridge at an angle to the pixel axes can have more than one, although the Gaussian has a single maximum)
@@ -426,10 +426,11 @@ def run(rep):
                     rep.finding('C01/K-closed-loop/%s:%s' % (name, cls), dict(seed=sd, special=sp), detail)
     if thorough:
         for sd in range(1000 * rep.seed, 1000 * rep.seed + 300):
-            bad, cls, detail = closed_loop(sd, 3)
+            docov = sd % 2 == 0
+            bad, cls, detail = closed_loop(sd, 3, docov=docov)
             rep.validated_runs(3)
             if bad:
-                rep.finding('C01/K-closed-loop/random(seed=%d):%s' % (sd, cls), dict(seed=sd, trials=3), detail)
+                rep.finding('C01/K-closed-loop/random(seed=%d,docov=%s):%s' % (sd, docov, cls), dict(seed=sd, trials=3, docov=docov), detail)
     rep.not_decided += ['the closed loop itself (optimiser convergence, island detection on the rendered image): exercised only by the noise-free replay oracle on a few random injections',
                         'noise case (within 5 reported standard errors)', 'internally estimated background/noise (BANE)', 'adequacy of the parameter bounds of estimate_lmfit_parinfo']
 
@@ -462,7 +463,7 @@ def replay(w):
     if w['witness'].get('elongated'):
         bad, cls, detail = closed_loop(int(w['witness'].get('seed', 5)), 1, elongated=tuple(w['witness']['elongated']))
         return bad, '%s: %s' % (cls, detail)
-    bad, cls, detail = closed_loop(int(w['witness'].get('seed', 3)), int(w['witness'].get('trials', 4)))
+    bad, cls, detail = closed_loop(int(w['witness'].get('seed', 3)), int(w['witness'].get('trials', 4)), docov=bool(w['witness'].get('docov', True)))
     return bad, '%s: %s' % (cls, detail)
 
 
